@@ -97,7 +97,7 @@ def analyse():
 
 # ---------------------------------------------------------------- C integer expressions -> Coq Z
 def c_tokens(txt):
-    toks = re.findall(r"\s*(->|[A-Za-z_]\w*|\d+|[()+\-*,])", txt)
+    toks = re.findall(r"\s*(->|!=|==|[A-Za-z_]\w*|\d+|[()+\-*,<>])", txt)
     if "".join(toks) != re.sub(r"\s+", "", txt):
         raise TranslateError("cannot tokenise C expression: %r" % txt)
     return toks
@@ -122,7 +122,7 @@ def c_expr(txt):
     def atom():
         x = eat()
         if x == "(":
-            e = expr()
+            e = cmp()
             eat(")")
             return "(%s)" % e
         if x == "-":
@@ -159,7 +159,16 @@ def c_expr(txt):
             op = eat()
             e = "(%s %s %s)" % (e, op, term())
         return e
-    out = expr()
+    def cmp():
+        # C comparison used as an integer (0/1), e.g.  (i - dl_window) * (i > dl_window)
+        e = expr()
+        if peek() in (">", "<", "!=", "=="):
+            op = eat()
+            b = expr()
+            test = {">": "%s >? %s", "<": "%s <? %s", "==": "%s =? %s", "!=": "negb (%s =? %s)"}[op] % (e, b)
+            e = "(if %s then 1 else 0)" % test
+        return e
+    out = cmp()
     if peek() is not None:
         raise TranslateError("C expression %r: trailing %r" % (txt, peek()))
     return out, sorted(free)
@@ -197,6 +206,37 @@ def analyse_mem():
         defs.append(("c_%s_psi2e_end" % v, fv, e))
         e, fv = c_expr(one(v, r"malloc\(sizeof\(seq_t\)\s*\*\s*([^)]+)\)", "allocation size"))
         defs.append(("c_%s_alloc" % v, fv, e))
+        # ---- the band and the buffer offset of the row loop
+        a, b, c2, d2 = one(v, r"if\s*\(l1 > l2\)\s*\{\s*ldiff\s*=\s*([^;]+);\s*dl\s*=\s*([^;]+);\s*\}\s*else\s*\{\s*ldiff\s*=\s*([^;]+);\s*dl\s*=\s*([^;]+);\s*\}",
+                           "ldiff / dl")
+        ea, _ = c_expr(a)
+        ec, _ = c_expr(c2)
+        defs.append(("c_%s_ldiff" % v, ["l1", "l2"], "(if l1 >? l2 then %s else %s)" % (ea, ec)))
+        eb, fb = c_expr(b)
+        ed, _ = c_expr(d2)
+        if fb != ["ldiff"]:
+            raise TranslateError("%s: dl is expected to be ldiff or a constant" % v)
+        defs.append(("c_%s_dl" % v, ["l1", "l2", "ldiff"], "(if l1 >? l2 then %s else %s)" % (eb, ed)))
+        e, fv = c_expr(one(v, r"idx_t\s+dl_window\s*=\s*([^;]+);", "dl_window"))
+        defs.append(("c_%s_dl_window" % v, fv, e))
+        a, b = one(v, r"idx_t\s+ldiff_window\s*=\s*([^;]+);\s*if\s*\(l2 > l1\)\s*\{\s*ldiff_window\s*\+=\s*([^;]+);\s*\}", "ldiff_window")
+        ea, fa = c_expr(a)
+        eb, fb = c_expr(b)
+        defs.append(("c_%s_ldiff_window" % v, sorted(set(fa) | set(fb) | {"l1", "l2"}),
+                     "(if l2 >? l1 then (%s + %s) else %s)" % (ea, eb, ea)))
+        e, fv = c_expr(one(v, r"\bmaxj\s*=\s*([^;]+);\s*minj\s*=", "maxj"))
+        defs.append(("c_%s_maxj" % v, fv, e))
+        a, b, c2 = one(v, r"\bminj\s*=\s*([^;]+);\s*if\s*\(minj > ([^)]+)\)\s*\{\s*minj\s*=\s*([^;]+);\s*\}", "minj")
+        ea, fa = c_expr(a)
+        eb, fb = c_expr(b)
+        ec, fc = c_expr(c2)
+        defs.append(("c_%s_minj" % v, sorted(set(fa) | set(fb) | set(fc)),
+                     "(if %s >? %s then %s else %s)" % (ea, eb, ec, ea)))
+        a, b = one(v, r"\bskip\s*=\s*(maxj);.*?\bskip\s*=\s*([^;]+);", "skip")
+        e, fv = c_expr(b)
+        if "skip" not in fv:
+            raise TranslateError("%s: second skip assignment does not use skip" % v)
+        defs.append(("c_%s_skip" % v, fv, e))      # as a function of skip (= maxj), length, l2
     return defs
 
 
